@@ -151,14 +151,36 @@ def canonicalise(trees: Dict[str, ast.Module]) -> Dict[str, str]:
         missing = [q for q in inv["functions"] if q not in cur]
         new = {q: v for q, v in cur.items() if q not in inv["functions"]}
         progress = False
+        # simple names defined per container, and the (simple) base-class names of every class
+        defined: Dict[str, set] = {}
+        for cq, (ccont, _n) in cur.items():
+            defined.setdefault(ccont, set()).add(cq.rsplit(".", 1)[-1])
+        bases: Dict[str, List[str]] = {}
+        for modname, tree in trees.items():
+            for n in ast.walk(tree):
+                if isinstance(n, ast.ClassDef):
+                    bases.setdefault(n.name, []).extend(b.id if isinstance(b, ast.Name) else b.attr for b in n.bases if isinstance(b, (ast.Name, ast.Attribute)))
+
+        def inherited(cont: str, meth: str, seen=()) -> bool:
+            for b in bases.get(cont.rsplit(".", 1)[-1], []):
+                for c2, names in defined.items():
+                    if c2.rsplit(".", 1)[-1] == b and b not in seen:
+                        if meth in names or inherited(c2, meth, seen + (b,)):
+                            return True
+            return False
+
         for q in missing:
             cont = inv["functions"][q]["container"]
             old = q.rsplit(".", 1)[-1]
+            if inherited(cont, old):
+                continue        # no longer overridden: the base class's method applies (see loader: inherited anchors)
             cands = []
             for nq, (ncont, node) in new.items():
                 nm = nq.rsplit(".", 1)[-1]
                 if ncont != cont or nm in known_simple or nm in renames:
                     continue
+                if any(nm in names and old in names for names in defined.values()):
+                    continue    # some class / module defines both names: they are different things
                 cands.append((similarity(inv["functions"][q]["features"], features(node), ignore=(old, nm)), nm))
             cands.sort(reverse=True)
             if cands and cands[0][0] >= THRESHOLD and (len(cands) == 1 or cands[0][0] - cands[1][0] >= MARGIN):
